@@ -273,6 +273,11 @@ func executeKeySet(t *testing.T, prop string, seed uint64, p *KeySetPlan) *core.
 		if !p.WithRetry || never {
 			continue
 		}
+		// the operator rotates its key slice in place once the connection has been
+		// handed out: the Conn has its own copy
+		for i := range ks {
+			ks[i] = ech.Key{}
+		}
 		var wn int
 		var werr error
 		if pk, m, s := core.Guard(func() { wn, werr = conn.Write(hrr) }); pk {
@@ -441,6 +446,7 @@ func executeKeySetParallel(res *core.Result, prop string, seed uint64, p *KeySet
 		return res
 	}
 	ks := echKeys(pool)
+	shared := ech.WithKeys(ks) // one Option value for every connection, as in a server's accept loop
 	const workers, rounds = 8, 24
 	var mu sync.Mutex
 	var wg sync.WaitGroup
@@ -460,7 +466,7 @@ func executeKeySetParallel(res *core.Result, prop string, seed uint64, p *KeySet
 				var n int
 				var rerr error
 				pk, m, site := core.Guard(func() {
-					conn, err = ech.NewConn(context.Background(), sc, ech.WithKeys(ks))
+					conn, err = ech.NewConn(context.Background(), sc, shared)
 					if err == nil {
 						n, rerr = conn.Read(buf)
 					}
